@@ -166,35 +166,69 @@ def _acc_hid(ex, stmt):
 
 
 def r4(ctx):
+    """Dense::forward, decided on its E6 summary: on every path the result is (pre, post) with
+    pre = W.dot(x) [+ bias in place iff self.bias is Some], post = activation.forward(pre) [dropout applied on top only under
+    self.training with a configured rate] - whatever spelling (if let / match / guards) selects the cases."""
+    from .. import e6
     c = ctx.crate
     fn = ctx.fn("dense::Dense::forward")
-    xh = pat_binds(fn["params"][1])[0][1]
-    stmts = top_stmts_of(fn["body"])
-    lets = {s_["pat"]["name"]: s_ for s_ in stmts if s_.get("k") == "let" and s_["pat"].get("k") == "bind"}
     where = c.loc(fn)
-    pre = lets.get("pre")
-    i = strip(pre["init"]) if pre else None
-    ok = i is not None and i.get("k") == "mcall" and i["callee"] == "tensor::Tensor::dot" and pretty(strip(i["recv"])) == "self.weights" and e4.local_hid(i["args"][0]) == xh
-    ctx.check("R02.4", "pre-is-W-dot-x", ok, "pre:" + (short(pretty(i), 60) if i else "?"), where, "pre = self.weights.dot(x)")
-    ph = pre["pat"]["hid"] if pre else None
-    adds = [y for y in walk(fn["body"]) if y.get("k") == "mcall" and y["callee"].startswith("tensor::Tensor::") and y["name"].endswith("_inplace") and e4.local_hid(y["recv"]) == ph]
-    okb = False
-    for s_ in stmts:
-        if s_.get("k") == "if" and strip(s_["c"]).get("k") == "letx" and pretty(strip(strip(s_["c"])["init"])) in ("&self.bias", "self.bias"):
-            bh = pat_binds(strip(s_["c"])["pat"])[0][1]
-            inner = [y for y in walk(s_["th"]) if y in adds]
-            okb = len(adds) == 1 and len(inner) == 1 and adds[0]["name"] == "add_inplace" and e4.local_hid(adds[0]["args"][0]) == bh and s_["el"] is None
-    ctx.check("R02.4", "bias-added-iff-present", okb, "bias:" + ",".join(a["name"] for a in adds), where, "if let Some(bias) = &self.bias { pre.add_inplace(bias) }")
-    post = lets.get("post")
-    j = strip(post["init"]) if post else None
-    ok = j is not None and j.get("k") == "mcall" and j["callee"] == "activation::Function::forward" and e4.local_hid(j["args"][0]) == ph
-    ctx.check("R02.4", "post-is-activation-of-pre", ok, "post:" + (short(pretty(j), 60) if j else "?"), where, "post = self.activation.forward(&pre)")
-    tail = strip(stmts[-1])
-    ok = tail.get("k") == "tup" and [pretty(strip(z)) for z in tail["xs"]] == ["pre", "post"]
-    ctx.check("R02.4", "returns-pre-post", ok, "result:" + short(pretty(tail), 40), where, "(pre, post)")
-    order = [stmts.index(lets[n]) for n in ("pre", "post") if n in lets]
-    bias_i = [k for k, s_ in enumerate(stmts) if s_.get("k") == "if" and strip(s_["c"]).get("k") == "letx" and "bias" in pretty(s_["c"])]
-    ctx.check("R02.4", "bias-before-activation", len(order) == 2 and bias_i and order[0] < bias_i[0] < order[1], "statement-order", where, "dot, then bias, then activation")
+    E = e6.Exec(c, fn)
+    paths = [p for p in E.run_fn() if p.exit is None or p.exit[0] == "return"]
+    X = ("p", pat_binds(fn["params"][1])[0][0])
+    SELF = ("p", "self")
+    DOT = ("call", "tensor::Tensor::dot", (("field", SELF, "weights"), X))
+    BIAS = ("field", SELF, "bias")
+    ok_pre = ok_bias = ok_post = ok_ret = ok_order = bool(paths)
+    seen_bias = set()
+    why = ""
+    for p in paths:
+        val = p.val if p.exit is None else p.exit[1]
+        if not (isinstance(val, tuple) and val and val[0] == "tup" and len(val[1]) == 2):
+            ok_ret = False
+            continue
+        pre, post = val[1]
+        has_bias = None
+        for (t, pol) in p.pc:
+            if isinstance(t, tuple) and t[0] == "is" and t[1] == BIAS:
+                has_bias = (t[2] == "Option::Some") == pol
+            if isinstance(t, tuple) and t[0] == "call" and t[1].endswith("::is_some") and t[2] == (BIAS,):
+                has_bias = pol
+            if isinstance(t, tuple) and t[0] == "call" and t[1].endswith("::is_none") and t[2] == (BIAS,):
+                has_bias = not pol
+        seen_bias.add(has_bias)
+        # pre
+        if has_bias:
+            want_pre_alts = [("upd", DOT, "tensor::Tensor::add_inplace@" + e6.show(pl), (("payload", BIAS, "Option::Some", 0),)) for pl in (("local", "pre"),)]
+            good = isinstance(pre, tuple) and pre and pre[0] == "upd" and pre[1] == DOT and pre[2].startswith("tensor::Tensor::add_inplace@") and pre[3] == (("payload", BIAS, "Option::Some", 0),)
+            if not good:
+                ok_bias = False
+                why = "with a bias pre = %s" % e6.show(pre, 2)[:100]
+        elif has_bias is False:
+            if pre != DOT:
+                ok_bias = False
+                why = "without a bias pre = %s" % e6.show(pre, 2)[:100]
+        else:
+            ok_bias = False
+            why = "a path does not decide whether a bias is present"
+        if e6.strip_upd(pre) != DOT:
+            ok_pre = False
+        # post: activation of exactly that pre; dropout (if any) applied on top of it
+        base = post
+        while isinstance(base, tuple) and base and base[0] == "upd" and base[2].startswith("tensor::Tensor::dropout@"):
+            base = base[1]
+        if base != ("call", "activation::Function::forward", (("field", SELF, "activation"), pre)):
+            ok_post = False
+            why = "post = %s" % e6.show(post, 2)[:100]
+        # effects: only the bias addition (before the activation is computed from pre) and dropout
+        kinds = [(e[0], e[1].rsplit("::", 1)[-1]) for e in p.eff if e[0] == "mut"]
+        if any(k_ not in (("mut", "add_inplace"), ("mut", "dropout")) for k_ in kinds) or any(e[0] not in ("mut",) for e in p.eff):
+            ok_order = False
+    ctx.check("R02.4", "pre-is-W-dot-x", ok_pre, "pre", where, "pre = self.weights.dot(x)")
+    ctx.check("R02.4", "bias-added-iff-present", ok_bias and seen_bias == {True, False}, "bias:" + short(why, 80), where, "pre.add_inplace(bias) iff self.bias is Some")
+    ctx.check("R02.4", "post-is-activation-of-pre", ok_post, "post:" + short(why, 80), where, "post = self.activation.forward(&pre) (of the biased pre)")
+    ctx.check("R02.4", "returns-pre-post", ok_ret, "result", where, "(pre, post)")
+    ctx.check("R02.4", "bias-before-activation", ok_post and ok_order, "statement-order", where, "dot, then bias, then activation; nothing else is modified")
     # Tensor::dot / product / add_inplace semantics are C15's rules
 
 
